@@ -33,7 +33,7 @@ COMPONENTS = {'real': ['kawin.precipitation.coupling.Strength.StrengthModel', 'k
 
 def plan(tier):
     if tier == 'quick':
-        return dict(runs=320, batch=4, hard_timeout=900, soft_timeout=300)
+        return dict(runs=600, batch=4, hard_timeout=900, soft_timeout=300)
     return dict(runs=12000, batch=10, hard_timeout=2400, soft_timeout=600)
 
 
